@@ -164,6 +164,10 @@ def operations(v, L, other):
             "Field": "1^2^3^A&B&C&D&E&F&G^MR^^^^^^^^^^^^^^^x", "Component": "N&U&T&X&Y&Z"}.get(t.classname, "x"))),
         ("value=object that is no text", lambda t: setattr(t, "value", object())),
         ("value=datatype object of another class", lambda t: setattr(_existing_leaf(t), "value", _wrong_dt(v, L))),
+        # the same object assigned through the PARENT's attribute: to a child that exists and to one that does not
+        ("<existing child>=datatype object of another class", lambda t: setattr(t, {"Segment": "pid_1" if t.name == "PID" else "zz_1", "Field": "cx_1", "Component": "hd_1"}.get(t.classname, "zz_1"), _wrong_dt(v, L))),
+        ("<absent child>=datatype object of another class", lambda t: setattr(t, {"Segment": "pid_23" if t.name == "PID" else "zz_1", "Field": "cx_2", "Component": "hd_3"}.get(t.classname, "zz_1"), _wrong_dt(v, L))),
+        ("<existing child>[0]=datatype object of another class", lambda t: getattr(t, {"Segment": "pid_1" if t.name == "PID" else "zz_1", "Field": "cx_1", "Component": "hd_1"}.get(t.classname, "zz_1")).__setitem__(0, _wrong_dt(v, L))),
         ("add a far additional field of another version", lambda t: t.add(Field("%s_%d" % (t.name, 40), version=("2.4" if v != "2.4" else "2.5"), validation_level=L))),
         ("add a far additional field of another level", lambda t: t.add(Field("%s_%d" % (t.name, 45), version=v, validation_level=other))),
     ]
